@@ -31,7 +31,7 @@ REQUIRED = [
     "KV.C16.extSort_canon", "KV.C16.extSort_combine_unique", "KV.C16.extSort_combine_eq_spec",
     "KV.C16.codeSort_refines", "KV.C16.codeSort_sorted_perm", "KV.C16.sizedSort_perm_sorted",
     "KV.C16.counting_suffix", "KV.C16.counting_prefix", "KV.C16.counting_context", "KV.C16.codeSort_ok",
-    "KV.C16.codeSort_correct", "KV.C16.bufferedEntry_refines",
+    "KV.C16.codeSort_correct", "KV.C16.bufferedEntry_refines", "KV.C16.merge_ret_sufficient",
 ]
 
 BOOST = ["-Wl,--no-as-needed", "-lboost_thread", "-lboost_system"]
@@ -190,7 +190,7 @@ def gen_case(rng, tier, idx):
         tot = rng.randrange(0, 4 * bufr)                  # BadSortConfig
     if r > 0.98:
         buf = rng.randrange(0, rs)                        # buffer rounds to 0 => BadSortConfig
-    mode = rng.choice(["blocking", "blocking", "steal"]) if rng.random() < 0.3 else "output"
+    mode = rng.choice(["blocking", "blocking", "steal"]) if rng.random() < 0.3 else rng.choice(["output", "output", "retout"])
     lz = rng.random()
     if lz < 0.3:
         lazy = "0"
@@ -335,6 +335,8 @@ def evaluate(ctx, c, line, hM, hO, dM):
         fields.append("passes")
         if c["mode"] in ("output", "steal"):
             fields += ["mret", "lazy"]
+        if c["mode"] == "retout":
+            fields += ["mret"]
     for f in fields:
         if h.get(f) != d.get(f):
             probs.append(("corr", "field %s: impl %s model %s" % (f, h.get(f), d.get(f))))
